@@ -528,13 +528,15 @@ def show_mem(game) -> str:
 
 
 def show_locs(game) -> str:
-    """`location_in_state` of every component as the REAL objects computed it in their last `calculate` (`_` = none)."""
+    """`location_in_state` of every component as the REAL objects computed it in their last `calculate` (`_` = none), and the
+    read-set of the agent's own item the implementation-side recheck (CalcTap) uses for it — compared with the model's
+    `Comp.loc` / `Comp.reads`."""
     out = []
     for k, a in game.agents.items():
         ls = []
         for comp, _w in a.reward_function.reward_components:
-            loc = getattr(comp, "location_in_state", None)
-            ls.append("/".join(esc(str(x)) for x in loc) if loc is not None else "_")
+            loc = getattr(comp, "location_in_state", None) if type(comp).__name__ in READS_STATE else None
+            ls.append(("/".join(esc(str(x)) for x in loc) if loc is not None else "_") + "|" + READS.get(type(comp).__name__, "?"))
         out.append(f"{esc(k)}=" + ":".join(ls))
     return ",".join(out)
 
